@@ -511,7 +511,45 @@ class Executor(object):
                 return self.alloc_set(path, z3.Lambda([x], body))
         raise Unsupported('binary operator %s on %s, %s at line %d' % (type(e.op).__name__, a.ty, b.ty, e.lineno))
 
+    def name_array(self, path, contents):
+        """a set/relation given by a lambda is replaced by a fresh array constant with its
+        defining axiom (trigger: a read of the constant) - e-matching friendly, no lambda in the heap"""
+        if not z3.is_quantifier(contents):
+            return contents
+        nv = contents.num_vars()
+        vs = [hp.fresh('x!d%d' % i, contents.var_sort(i)) for i in range(nv)]
+        body = z3.substitute_vars(contents.body(), *reversed(vs))
+        R = hp.fresh('defset', contents.sort())
+        sel = R[vs[0]] if nv == 1 else R[vs[0], vs[1]]
+        # triggers: a read of the constant, or a read of one of the defining sets at the same point
+        alts = [sel]
+        ids = set(v.get_id() for v in vs)
+
+        def mentions_all(t):
+            found = set()
+
+            def walk(u):
+                if u.get_id() in ids:
+                    found.add(u.get_id())
+                for ch in u.children():
+                    walk(ch)
+            walk(t)
+            return found == ids
+
+        def collect(t):
+            if z3.is_app(t) and t.decl().kind() in (z3.Z3_OP_SELECT, z3.Z3_OP_UNINTERPRETED) and t.num_args() > 0 \
+                    and mentions_all(t) and not hp._has_binder(t):
+                alts.append(t)
+                return
+            if z3.is_app(t):
+                for ch in t.children():
+                    collect(ch)
+        collect(body)
+        path.pc.append(z3.ForAll(vs, sel == body, patterns=alts[:4]))
+        return R
+
     def alloc_set(self, path, contents, ty='set'):
+        contents = self.name_array(path, contents)
         r, h = path.heap.new()
         path.heap = h.with_(sets=z3.Store(h['sets'], r, contents))
         return SV(ty, r)
@@ -527,6 +565,7 @@ class Executor(object):
         return SV('fdict', r)
 
     def alloc_pairlist(self, path, contents):
+        contents = self.name_array(path, contents)
         r, h = path.heap.new()
         path.heap = h.with_(rels=z3.Store(h['rels'], r, contents))
         return SV('pairlist', r)
@@ -572,6 +611,11 @@ class Executor(object):
             for exc, p2, ln in sub.exc:
                 path.exc.append((exc, p2, ln))
         elt = self.ev(e.elt, sub)
+        if elt.ty == 'pair' and len(bound) == 2 and {elt.t[0].get_id(), elt.t[1].get_id()} == {bound[0].get_id(), bound[1].get_id()}:
+            # the element is the iteration pair itself (possibly swapped): no existential needed
+            return self.alloc_pairlist(path, z3.Lambda([elt.t[0], elt.t[1]], z3.And(elem_in, cond)))
+        if elt.ty == 'H' and len(bound) == 1 and elt.t.get_id() == bound[0].get_id():
+            return self.alloc_set(path, z3.Lambda([bound[0]], z3.And(elem_in, cond)), 'list' if kind == 'list' else 'set')
         if elt.ty == 'pair':
             x, y = hp.fresh('x!c', H), hp.fresh('y!c', H)
             body = z3.Exists(bound, z3.And(elem_in, cond, elt.t[0] == x, elt.t[1] == y))
